@@ -262,7 +262,9 @@ def gen_case(S, tier):
                 w_ = (hi - lo) * rng.choice([0.15, 0.3, 0.6])
                 parameters.append({"name": nm, "dist": "unif", "pars": [round(max(lo * 0.5, th - w_ * rng.uniform(0.2, 0.8)), 4), round(th + w_ * rng.uniform(0.2, 0.8), 4)]})
             elif d == "gamma":
-                shape = rng.choice([20.0, 50.0, 100.0])
+                # tight priors away from zero, and broad ones whose mass reaches down to the edge of the support
+                # (perturbation kernels then propose negative values, which must be rejected)
+                shape = rng.choice([20.0, 50.0, 100.0, 1.5, 2.0, 3.0])
                 parameters.append({"name": nm, "dist": "gamma", "pars": [shape, round(shape / th, 5)]})
             else:
                 parameters.append({"name": nm, "dist": "norm", "pars": [th, round(th * rng.choice([0.05, 0.1, 0.2]), 5)]})
